@@ -98,6 +98,13 @@ func HostileHistory(r R, maxLen int, reopen bool, avoidReadd bool) []HOp {
 			op.Op = "reopen"
 			op.G = ""
 		}
+		if (op.Op == "addV" || op.Op == "addE") && r.Chance(20) {
+			// the same element(s) through the streaming bulk call of the driver
+			op.Op = "bulk"
+			if r.Chance(40) {
+				op.V = append(op.V, &model.Vertex{ID: pick(r, ids), Label: pick(r, ls), Data: hostileData(r)})
+			}
+		}
 		for _, e := range op.E {
 			if old, ok := seen[ek{op.G, e.ID}]; ok && avoidReadd {
 				e.From, e.To, e.Label = old.From, old.To, old.Label
